@@ -2344,7 +2344,9 @@ def c01_entry(res, tier, seed):
         return c01(res, tier, seed)
     import pickle, resource
     E.load()   # MIR dump and parse once; the children inherit the parsed functions
-    ctxs = [(g, sname) for sname in C01_SHAPES_THOROUGH for g in C01_GROUPS_THOROUGH]
+    # the trimer (nine disc pairs per shape pair) is taken with the one- and two-copy groups p1 and p2 only: a four-copy
+    # group x trimer context ran into the 14 GB cap after an hour
+    ctxs = [(g, sname) for sname in C01_SHAPES_THOROUGH for g in C01_GROUPS_THOROUGH if sname != "trimer" or g in ("p1", "p2")]
     # one fresh process per context (memory is returned when it ends), at most `par` at a time, each with an
     # address-space cap so that a runaway context fails alone and is reported as undischarged
     par = int(os.environ.get("VERIF_C01_PAR", "4"))
@@ -2404,7 +2406,7 @@ def c01_entry(res, tier, seed):
             x2 = x_.split(";")[-1] if x_.startswith("groups [") else x_
             if x2 not in res.bounds:
                 res.bounds.append(x2)
-    res.bounds.insert(0, "groups %s x shapes %s; every cell in the optimiser's bounds (length [0.01,50], ratio [0.1,1], angle [pi/6,pi/2]) and site in [-1/2,1/2]^2 with any orientation" % (C01_GROUPS_THOROUGH, C01_SHAPES_THOROUGH))
+    res.bounds.insert(0, "groups %s x shapes %s (the trimer with p1 and p2 only); every cell in the optimiser's bounds (length [0.01,50], ratio [0.1,1], angle [pi/6,pi/2]) and site in [-1/2,1/2]^2 with any orientation" % (C01_GROUPS_THOROUGH, C01_SHAPES_THOROUGH))
 
 
 def _c01_child(arg):
@@ -2850,7 +2852,6 @@ def c01(res, tier, seed, only_ctx=None):
                     qq.status = "unsat"
                     qq.meta = dict(qq.meta, decided_by="%d domain boxes, all unsat" % len(st))
             res.extra[label] = len(todo)
-    split_unknown([qq for qq in done if getattr(qq, "stage2", None) is None], "split_round1")
     # polygons: goals the disc abstraction cannot exclude get the exact query
     stage2 = []
     for qq in list(done):
@@ -3089,6 +3090,19 @@ def c01(res, tier, seed, only_ctx=None):
         res.extra["orientation_bb_queries"] = sum(inf_["queries"] for inf_ in info.values())
         res.extra["orientation_bb_rounds"] = rounds
 
+    # molecules: the untested-image query is already exact (discs); what the solver left undecided goes through the
+    # same orientation branch and bound (the disc centres rotate with the molecule)
+    bb_mol = []
+    for qq in done:
+        if qq.status not in ("sat", "unsat") and qq.meta.get("kind") == "untested" and getattr(qq, "stage2", None) is None and getattr(qq, "poly_skels", None) is not None:
+            try:
+                polyq.relax_theta(qq.poly_skels, 1.0, 0.0, 0.1)
+                bb_mol.append(qq)
+            except polyq.NotPoly as e_:
+                qq.meta = dict(qq.meta, no_orientation_bb=str(e_))
+    if bb_mol and not os.environ.get("VERIF_C01_NOBB"):
+        theta_bb(bb_mol, _time.time() + (360 if tier == "quick" else 1200))
+    split_unknown([qq for qq in done if getattr(qq, "stage2", None) is None and not getattr(qq, "bb_done", False)], "split_round1")
     if stage2:
         bb = []
         for q1, q2 in stage2:
